@@ -120,7 +120,7 @@ pub fn well_formed(text: &str, toks: &[STok]) -> Result<(), (String, String)> {
         let want = lsptext::utf16_len(&text[lt.start..lt.end]);
         // a comment token may count its line terminator
         let rest = &text[lt.end..];
-        let le = if rest.starts_with("\r\n") { 2 } else if rest.starts_with('\n') { 1 } else { 0 };
+        let le = if rest.starts_with("\r\n") { 2 } else if rest.starts_with('\n') || rest.starts_with('\r') { 1 } else { 0 };
         let ok = t.len == want || (matches!(lt.kind, RKind::Comment(_)) && t.len == want + le);
         if !ok {
             let class = if text[lt.start..lt.end].is_ascii() { "ascii" } else { "non-ascii" };
